@@ -1,5 +1,6 @@
 """C14 - outputs are a deterministic function of the input (fresh interpreters x hash seeds)."""
 import os
+import re
 from concurrent.futures import ThreadPoolExecutor
 
 from .. import determinism as det, lib
@@ -48,13 +49,15 @@ def run(tier):
         # the fresh interpreters (real code) and the three design-model checks run side by side
         tasks, gen = tasks_for(tier)
         seeds = det.seeds_for(tier)
-        with ThreadPoolExecutor(max_workers=4) as ex:
+        with ThreadPoolExecutor(max_workers=5) as ex:
             fut = ex.submit(det.run_children, tasks, seeds, t["shards"], sc)
             f1 = ex.submit(lib.mc, "MC_Determinism", t["mc_required"], sc, workers=1)
             f2 = ex.submit(lib.mc, "MC_Determinism", "MC_Determinism_AsImplemented_confined.cfg", sc, workers=1)
             f3 = ex.submit(lib.mc, "MC_Determinism", "MC_Determinism_AsImplemented.cfg", sc,
                            expect_violation="SameAcrossRuns", workers=1)
+            f4 = ex.submit(det.selftest, sc)
             r1, r2, r3 = f1.result(), f2.result(), f3.result()
+            ncorrupt = f4.result()
             grouped, nproc, slowest = fut.result()
         # ---- design-level model: the pipeline's emission points, two processes, the seed as adversary
         rep.add_mc(r1, "Required assignment (all_dot_brackets emitted sorted): two runs of the 47 emission points; "
@@ -90,6 +93,7 @@ def run(tier):
                        "(input, artefact). Non-trivial = error-free case whose artefact is a non-empty text or a list "
                        "with >= 2 members.")
         cov["distinct_nontrivial"] = len({c["id"] for c in nontrivial})
+        cov["corrupted_traces_judged_as_expected"] = ncorrupt
         cov["processes"] = nproc
         cov["observations"] = sum(len(c["obs"]) for c in cases)
         cov["slowest_child_s"] = round(slowest, 1)
@@ -126,13 +130,15 @@ def replay(doc):
     rep = lib.Report(PID, "quick", "exploration", evidence=False)
     with lib.Scratch("c14r") as sc:
         inp = case["input"]
-        tasks, _ = tasks_for("thorough" if not inp.startswith("g") else "quick")
-        mine = [t for t in tasks if t["name"] == inp]
-        if not mine and inp.startswith("g"):
-            # generated structure: regenerate the family it came from (name = g<seed>-<k>)
-            seed = int(inp[1:].split("-")[0])
-            k = int(inp.split("-")[1])
-            mine = [g for g in det.generated_cases(max(k + 1, 1), seed) if g["name"] == inp]
+        m = re.match(r"^([gp])(\d+)-(\d+)$", inp)
+        if m and m.group(1) == "g":      # generated structure: regenerate its family (name = g<seed>-<k>)
+            mine = [g for g in det.generated_cases(int(m.group(3)) + 1, int(m.group(2))) if g["name"] == inp]
+        elif m:                          # generated base-pair list (name = p<seed>-<k>)
+            lists = [x for x in det.pairlist_cases(int(m.group(3)) + 1, int(m.group(2))) if x["name"] == inp]
+            mine = [{"kind": "map", "name": "maps-replay", "lists": lists,
+                     "path": os.path.join(lib.REPO, "tests", "1ehz-assembly-1.cif")}] if lists else []
+        else:
+            mine = [t for t in tasks_for("thorough")[0] if t["kind"] in ("file", "v2") and t["name"] == inp]
         if not mine:
             raise lib.MachineryError(f"cannot find input {inp} for replay")
         seeds = sorted({o["seed"] for o in case["obs"]}, key=lambda s: (s == "random", s.zfill(4)))
